@@ -455,6 +455,41 @@ func streamerTickerFloors(p *packages.Package) []int64 {
 	return res
 }
 
+// services.monitorPusher: which context the returned monitor embeds — "errgroup" when it is the
+// context errgroup.WithContext returned (done as soon as the pusher goroutine ends), "parent" when it is
+// the context that was passed to errgroup.WithContext (done only when the service cancels the pusher)
+func pusherMonitorContext(p *packages.Package) string {
+	fd := funcDecl(p, "", "monitorPusher")
+	if fd == nil {
+		return "missing"
+	}
+	egCtx, parent := "", ""
+	res := "unknown"
+	ast.Inspect(fd.Body, func(n ast.Node) bool {
+		switch x := n.(type) {
+		case *ast.AssignStmt:
+			if len(x.Lhs) == 2 && len(x.Rhs) == 1 {
+				if c, ok := x.Rhs[0].(*ast.CallExpr); ok && exprName(c.Fun) == "errgroup.WithContext" && len(c.Args) == 1 {
+					egCtx, parent = exprName(x.Lhs[1]), exprName(c.Args[0])
+				}
+			}
+		case *ast.ReturnStmt:
+			if len(x.Results) == 1 {
+				if cl, ok := x.Results[0].(*ast.CompositeLit); ok && len(cl.Elts) >= 2 {
+					switch exprName(cl.Elts[1]) {
+					case egCtx:
+						res = "errgroup"
+					case parent:
+						res = "parent"
+					}
+				}
+			}
+		}
+		return true
+	})
+	return res
+}
+
 // every pruneServiceFor("name", func(params) { return actions.NewX(params) }) registration: (name, constructor)
 func pruneServices(p *packages.Package) []string {
 	var res []string
@@ -837,6 +872,7 @@ func main() {
 	fmt.Fprintf(&out, "/-- the transaction closures of GetSubscriptionMessages.execute that select candidates: do they record the attempt too -/\ndef pullTxShape : List String := %s\n", q(pullTxShape(act)))
 	fmt.Fprintf(&out, "/-- every `case <-pubNotify` of MessageStreamer.Go: does it take a new awaiter first -/\ndef streamerRenewals : List String := %s\n", q(streamerRenewals(act)))
 	fmt.Fprintf(&out, "/-- every Send / SendBatch of the sender goroutine of MessageStreamer.Go: are the fetched deliveries entered into `pending` before it -/\ndef streamerBooksBeforeSend : List String := %s\n", q(streamerBooksBeforeSend(act)))
+	fmt.Fprintf(&out, "/-- services.monitorPusher: the context the push service watches to learn that a pusher has ended -/\ndef pusherMonitorContext : String := %q\n", pusherMonitorContext(svc))
 	{
 		var fl []string
 		for _, f := range streamerTickerFloors(act) {
